@@ -9,16 +9,55 @@ ENC = ['src/encoding/rle.c', 'src/core/bitpack.c', 'src/core/buffer.c']
 
 
 def dec(name, mode, L, srcs, extra=(), bounds='', timeout=300, **kw):
-    return E2('%s/L%d' % (name, L), H, srcs, ['-DMODE=%d' % mode, '-DL=%d' % L] + list(extra), leaks=True, timeout=timeout,
+    kw.setdefault('leaks', True)
+    return E2('%s/L%d' % (name, L), H, srcs, ['-DMODE=%d' % mode, '-DL=%d' % L] + list(extra), timeout=timeout,
               bounds='every input of %d byte(s); %s' % (L, bounds), **kw)
+
+
+DELTA = ['src/encoding/delta.c', 'src/core/bitpack.c', 'src/core/buffer.c']
+THRIFT = ['src/thrift/thrift_decode.c', 'src/thrift/parquet_types.c', 'src/core/arena.c', 'src/core/buffer.c', 'src/core/error.c']
 
 
 def obligations(tier):
     q = tier == 'quick'
     o = []
-    Ls = [0, 1, 2, 3, 4] if q else [0, 1, 2, 3, 4, 5]
-    for L in Ls:
-        o.append(dec('rle-decode-all', 1, L, ENC, ['-DBWLO=0', '-DBWHI=3'], 'bit width 0..3, capacity 0..12 symbolic'))
-        o.append(dec('rle-decode-levels', 2, L, ENC, ['-DBWLO=0', '-DBWHI=3'], 'bit width 0..3, capacity 0..12 symbolic'))
-        o.append(dec('rle-levels-prefixed', 3, L + 2, ENC, ['-DBWLO=0', '-DBWHI=2'], 'bit width 0..2, capacity 0..12 symbolic; 4-byte length prefix free'))
+    for L in ([0, 1, 2, 3] if q else [0, 1, 2, 3, 4, 5]):
+        o.append(dec('rle-decode-all', 1, L, ENC, ['-DBWLO=0', '-DBWHI=3'], 'bit width 0..3, capacity 0..12 symbolic', timeout=600))
+        o.append(dec('rle-decode-levels', 2, L, ENC, ['-DBWLO=0', '-DBWHI=3'], 'bit width 0..3, capacity 0..12 symbolic', timeout=900))
+        o.append(dec('rle-levels-prefixed', 3, L + 3, ENC, ['-DBWLO=0', '-DBWHI=2'], 'bit width 0..2, capacity 0..12 symbolic; 4-byte length prefix free', timeout=600))
+    # wide / illegal bit widths: the width byte of a page is untrusted (0..255)
+    for lo, hi in ([(4, 9), (30, 40), (250, 255)] if q else [(4, 16), (17, 33), (34, 70), (120, 130), (240, 255)]):
+        o.append(dec('rle-decode-all/bw%d-%d' % (lo, hi), 1, 3, ENC, ['-DBWLO=%d' % lo, '-DBWHI=%d' % hi, '-DCAP=9'], 'bit width %d..%d, capacity 0..9 symbolic' % (lo, hi), timeout=600))
+        o.append(dec('rle-decode-levels/bw%d-%d' % (lo, hi), 2, 3, ENC, ['-DBWLO=%d' % lo, '-DBWHI=%d' % hi, '-DCAP=9'], 'bit width %d..%d, capacity 0..9 symbolic' % (lo, hi), timeout=600))
+    for L in ([2, 3] if q else [1, 2, 3, 4]):
+        o.append(dec('rle-stream-ops', 4, L, ENC, ['-DBWLO=0', '-DBWHI=2', '-DCAP=5'], '3 symbolic operations from {get_batch(k), skip(k), get}, k 0..5, bit width 0..2', timeout=900, max_paths=400000))
+    for pt, nm in enumerate(['boolean', 'int32', 'int64', 'int96', 'float', 'double', 'byte_array', 'flba']):
+        for L in ([0, 5, 9] if q else [0, 1, 4, 5, 8, 9, 13]):
+            o.append(dec('plain-%s' % nm, 5, L, ['src/encoding/plain.c', 'src/core/buffer.c'], ['-DPTYPE=%d' % pt, '-DCAP=3'], 'count 0..3 symbolic', timeout=300))
+    for wide in (0, 1):
+        for L in ([0, 3, 5] if q else [0, 1, 2, 3, 4, 5, 6, 7]):
+            o.append(dec('delta-int%d' % (64 if wide else 32), 6, L, DELTA, ['-DWIDE=%d' % wide, '-DCAP=5'], 'declared count 0..5 symbolic', timeout=600))
+    for L in ([4, 6] if q else [1, 3, 4, 5, 6, 7]):
+        o.append(dec('delta-length', 7, L, DELTA + ['src/encoding/delta_length.c'], ['-DCAP=3'], 'declared count 0..3 symbolic', timeout=600))
+        o.append(dec('delta-strings', 8, L, DELTA + ['src/encoding/delta_length.c', 'src/encoding/delta_strings.c'], ['-DCAP=3'], 'declared count 0..3, work buffer 0..8 symbolic', timeout=600))
+    for dt, nm in enumerate(['int32', 'int64', 'float', 'double']):
+        for L in ([1, 3] if q else [0, 1, 2, 3, 4]):
+            o.append(dec('dict-%s' % nm, 9, L, ['src/encoding/dictionary.c'] + ENC, ['-DDTYPE=%d' % dt, '-DCAP=4', '-DDN=2'], 'dictionary of 0..2 symbolic entries, output count 0..4; indices = bit-width byte + hybrid runs', timeout=600))
+    for b, nm in enumerate(['float', 'double', 'generic']):
+        for L in ([0, 8] if q else [0, 4, 8, 12, 16]):
+            o.append(dec('bss-%s' % nm, 10, L, [], ['-DBSS=%d' % b, '-DCAP=3'], 'count 0..3 (generic: width 0..5) symbolic; scalar dispatch (cpuid hook reports no SIMD)', timeout=600, all_lib=True))
+    for L in ([1, 2, 3] if q else [1, 2, 3, 4]):
+        o.append(dec('thrift-page-header', 11, L, THRIFT, [], 'all bytes free', timeout=900))
+        o.append(dec('thrift-file-metadata', 12, L, THRIFT, [], 'all bytes free', timeout=900))
+    for L in ([4, 9] if q else [1, 4, 8, 9, 12]):
+        o.append(dec('bitunpack32', 13, L, ['src/core/bitpack.c'], ['-DCAP=9'], 'count 0..9, width 1..32 symbolic with ceil(count*width/8) <= L (documented precondition)', timeout=600))
+    for c, nm in enumerate(['snappy', 'lz4']):
+        for L in ([1, 2, 3, 4] if q else [1, 2, 3, 4, 5, 6]):
+            o.append(dec('%s-decompress' % nm, 14, L, ['src/compression/%s.c' % nm], ['-DCODEC=%d' % c, '-DCAP=12'], 'capacity 0..12 symbolic', timeout=600,
+                         ))
+    for c, nm in enumerate(['zstd', 'gzip']):
+        if nm == 'gzip': continue      # zlib's streaming API (z_stream) is not modelled: outside the claim
+        o.append(dec('%s-wrapper' % nm, 15, 4, ['src/compression/%s.c' % nm], ['-DCODEC=%d' % c, '-DCAP=8'], 'capacity 0..8 symbolic; libzstd = contract stub (arbitrary status, arbitrary output within capacity)', timeout=300,
+                     stubs=['ZSTD_decompressDCtx/ZSTD_createDCtx/ZSTD_isError: contract stubs'], leaks=False,
+                     assumptions=['the thread-local cached ZSTD_DCtx is a deliberate cache, not a leak (leak check off for this obligation)']))
     return o
